@@ -10,7 +10,10 @@ L_Leaves == <<
   Iota(<<I2>>, <<>>, 0, 1, 1),
   Iota(<<I2, J2>>, <<>>, 0, 1, 1),
   Iota(<<J2, I2, K3>>, <<>>, 0, 1, 1),
-  Iota(<<K3, I2>>, <<2>>, 0, -5, 2) >>
+  Iota(<<K3, I2>>, <<2>>, 0, -5, 2),
+  \* a Slice as the term substituted INTO: values 1, 3, 5 of Bint[6], input k : Bint[3]
+  SliceT("k", 1, 6, 2, 6),
+  SliceT("i", 0, 2, 1, 2) >>
 L_UnOps == <<>>
 L_BinOps == <<>>
 L_RedOps == <<>>
@@ -24,6 +27,7 @@ L_SubVals == <<
   V("i", BintD(2)), V("j", BintD(2)), V("m", BintD(2)), V("k", BintD(3)), V("p", BintD(3)),
   IdxJ, IdxM, IdxIM3, IdxK2,
   SliceT("s", 0, 3, 2, 3), SliceT("k", 1, 3, 1, 3), SliceT("m", 0, 3, 2, 3),
+  SliceT("s", 0, 2, 1, 3), SliceT("p", 0, 1, 1, 2),   \* proper prefixes (the stop matters)
   [c |-> "Bin", op |-> Op0("add"), l |-> V("i", BintD(2)), r |-> N(1, 2)] >>
 L_NewNames == <<"q">>
 =============================================================================
